@@ -36,4 +36,75 @@ theorem flySrcField_denies (want : Bytes) (g : Option (Option Bytes))
     | some v => simp at h2
 
 
+/-! ### action masks -/
+
+theorem subset_iff (a b : Action) : a.subset b = true ↔ a &&& b = a := by simp [Action.subset]
+
+theorem subset_and (a p q : Action) : a.subset (p &&& q) = true ↔ a.subset p = true ∧ a.subset q = true := by
+  simp only [subset_iff]
+  constructor
+  · intro h
+    constructor
+    · have : a &&& p = (a &&& (p &&& q)) &&& p := by rw [h]
+      rw [this, UInt16.and_assoc, UInt16.and_assoc, UInt16.and_comm q p, ← UInt16.and_assoc p, UInt16.and_self, h]
+    · have : a &&& q = (a &&& (p &&& q)) &&& q := by rw [h]
+      rw [this, UInt16.and_assoc, UInt16.and_assoc, UInt16.and_self, h]
+  · rintro ⟨hp, hq⟩
+    rw [← UInt16.and_assoc, hp, hq]
+
+theorem subset_allOnes (a : Action) : a.subset 0xffff = true := by
+  have : (0xffff : UInt16) = -1 := by decide
+  rw [subset_iff, this]; exact UInt16.and_neg_one
+
+/-- monotonicity of masks: a sub-action of a permitted action is permitted -/
+theorem subset_trans_left (a' a m : Action) (h' : a'.subset a = true) (h : a.subset m = true) :
+    a'.subset m = true := by
+  rw [subset_iff] at *
+  calc a' &&& m = (a' &&& a) &&& m := by rw [h']
+    _ = a' &&& (a &&& m) := UInt16.and_assoc ..
+    _ = a' &&& a := by rw [h]
+    _ = a' := h'
+
+theorem subset_foldl {K} (a p0 : Action) (es : ResSet K) :
+    a.subset (es.foldl (fun p e => p &&& e.2) p0) = true ↔ a.subset p0 = true ∧ ∀ e ∈ es, a.subset e.2 = true := by
+  induction es generalizing p0 with
+  | nil => simp
+  | cons e es ih =>
+    simp only [List.foldl_cons, ih, subset_and, List.mem_cons, forall_eq_or_imp]
+    constructor
+    · rintro ⟨⟨h1, h2⟩, h3⟩; exact ⟨h1, h2, h3⟩
+    · rintro ⟨h1, h2, h3⟩; exact ⟨⟨h1, h2⟩, h3⟩
+
+/-- the requested bits lie within the intersection of the masks iff within every mask -/
+theorem subset_perm {K} (a : Action) (es : ResSet K) :
+    a.subset (ResSet.perm es) = true ↔ ∀ e ∈ es, a.subset e.2 = true := by
+  unfold ResSet.perm
+  rw [subset_foldl]; simp [subset_allOnes]
+
+/-! ### conditionals -/
+
+/-- the inner caveats of a conditional that "concern a resource the request specifies" -/
+def applicable {B} (ifs : List (Cav B)) (a : Access) : List (Cav B) :=
+  ifs.filter fun c => !(prohibits c a).is .resUnspecified
+
+theorem ifLoop_eq {B} : (ifs : CavList B) → (a : Access) →
+    ifLoop ifs a = ((applicable ifs.toList a).flatMap (fun c => prohibits c a), !(applicable ifs.toList a).isEmpty)
+  | .nil, a => by simp [ifLoop, applicable, CavList.toList]
+  | .cons c cs, a => by
+    have ih := ifLoop_eq cs a
+    unfold ifLoop
+    simp only [CavList.toList, applicable, List.filter_cons] at ih ⊢
+    by_cases h : (prohibits c a).is .resUnspecified = true
+    · simp [h, ih]
+    · simp at h; simp [h, ih]
+
+theorem errs_is_append (x y : Errs) (s : Sentinel) : (x ++ y).is s = (x.is s || y.is s) := by
+  simp [Errs.is]
+
+theorem errs_is_flatMap {α} (l : List α) (f : α → Errs) (s : Sentinel) :
+    Errs.is (l.flatMap f) s = l.any (fun x => (f x).is s) := by
+  induction l with
+  | nil => simp [Errs.is]
+  | cons x xs ih => simp only [List.flatMap_cons, errs_is_append, ih, List.any_cons]
+
 end Macaroon.Lemmas
